@@ -162,3 +162,29 @@ pub fn mem_excess(cost: u64, bottom: u64, n: u64) -> bool {
 pub fn cpu_excess(cost_ns: u64, bottom_ns: u64, n: u64) -> bool {
     cost_ns >= CPU_ABS_NS && cost_ns > CPU_PER_UNIT_NS * n + CPU_C0_NS && cost_ns >= RATIO * bottom_ns.max(1_000)
 }
+
+// CPU clock of another thread (watchdog) -------------------------------------------------------------
+
+#[repr(C)]
+struct Timespec {
+    tv_sec: i64,
+    tv_nsec: i64,
+}
+
+unsafe extern "C" {
+    fn pthread_getcpuclockid(thread: usize, clock_id: *mut i32) -> i32;
+    fn clock_gettime(clock_id: i32, tp: *mut Timespec) -> i32;
+}
+
+/// CPU time consumed so far by the thread with this `pthread_t`; None once it has exited
+pub fn thread_cpu_ns_of(pthread: usize) -> Option<u64> {
+    let mut clock = 0i32;
+    if unsafe { pthread_getcpuclockid(pthread, &mut clock) } != 0 {
+        return None;
+    }
+    let mut ts = Timespec { tv_sec: 0, tv_nsec: 0 };
+    if unsafe { clock_gettime(clock, &mut ts) } != 0 {
+        return None;
+    }
+    Some(ts.tv_sec as u64 * 1_000_000_000 + ts.tv_nsec as u64)
+}
